@@ -169,6 +169,111 @@ func ruleScopeGroupWalk(c *Ctx) []Obligation {
 	if !found {
 		obs = append(obs, undecided(R, con, c.Pos(fn.Pos()), "no loop-carried Node cursor in FindGrouping"))
 	}
+	// a remembered answer is remembered for the place it was asked from: what a name denotes depends on the node the
+	// uses statement sits under, so a table that short-cuts the walk is keyed by that node, not by something coarser
+	// computed from it (its module, its root)
+	con2 := "an answer taken from a table instead of the walk is keyed by the node the lookup starts from"
+	k := 0
+	memoLookup := func(v ssa.Value) (key ssa.Value, at ssa.Instruction) {
+		switch x := v.(type) {
+		case *ssa.Lookup:
+			if _, f, _ := loadedField(x.X); f != nil {
+				return x.Index, x
+			}
+		case *ssa.Extract:
+			if l, isL := x.Tuple.(*ssa.Lookup); isL {
+				if _, f, _ := loadedField(l.X); f != nil {
+					return l.Index, l
+				}
+			}
+		case *ssa.Call:
+			// a small getter: one parameter besides the receiver, returns table[param]
+			cal := x.Call.StaticCallee()
+			if cal == nil || !c.isRepoFn(cal) || cal.Blocks == nil || len(x.Call.Args) != 2 {
+				return nil, nil
+			}
+			isGetter := false
+			eachInstr(cal, func(in ssa.Instruction) {
+				if l, isL := in.(*ssa.Lookup); isL {
+					if _, f, _ := loadedField(l.X); f != nil && (l.Index == ssa.Value(cal.Params[1]) || isParamN(cal, l.Index, 1)) {
+						isGetter = true
+					}
+				}
+			})
+			if isGetter {
+				return x.Call.Args[1], x
+			}
+		}
+		return nil, nil
+	}
+	for _, b := range fn.Blocks {
+		r, isR := b.Instrs[len(b.Instrs)-1].(*ssa.Return)
+		if !isR || len(r.Results) != 1 {
+			continue
+		}
+		var key ssa.Value
+		var at ssa.Instruction
+		backSlice(resolveSpill(r.Results[0], r), func(x ssa.Value) bool {
+			if kk, a := memoLookup(x); kk != nil && key == nil {
+				key, at = kk, a
+				return false
+			}
+			return true
+		})
+		if key == nil {
+			continue
+		}
+		k++
+		// does the key contain the start node itself?
+		direct := false
+		var walk func(v ssa.Value, d int)
+		walk = func(v ssa.Value, d int) {
+			if d > 6 || direct {
+				return
+			}
+			switch x := v.(type) {
+			case *ssa.Parameter:
+				if isParamN(fn, x, 0) {
+					direct = true
+				}
+			case *ssa.MakeInterface:
+				walk(x.X, d+1)
+			case *ssa.ChangeInterface:
+				walk(x.X, d+1)
+			case *ssa.UnOp:
+				if al, isA := x.X.(*ssa.Alloc); isA {
+					for _, rr := range refsOf(al) {
+						switch y := rr.(type) {
+						case *ssa.Store:
+							if y.Addr == ssa.Value(al) {
+								walk(y.Val, d+1)
+							}
+						case *ssa.FieldAddr:
+							for _, r3 := range *y.Referrers() {
+								if st, isS := r3.(*ssa.Store); isS && st.Addr == ssa.Value(y) {
+									walk(st.Val, d+1)
+								}
+							}
+						}
+					}
+				}
+			case *ssa.Phi:
+				for _, e := range x.Edges {
+					walk(e, d+1)
+				}
+			}
+		}
+		walk(key, 0)
+		con3 := con2
+		if k > 1 {
+			con3 = fmt.Sprintf("%s #%d", con2, k)
+		}
+		if direct {
+			obs = append(obs, ok(R, con3, c.InstrPos(at), "the key holds the start node"))
+		} else {
+			obs = append(obs, bad(R, con3, c.InstrPos(at), "the lookup returns what a table holds under a key that does not contain the node it was asked from (only something computed from it, such as its module): two uses of one name in different scopes of that module get the same grouping, whichever was resolved first"))
+		}
+	}
 	return obs
 }
 
